@@ -179,6 +179,13 @@ func (txnPoliciesAccessor *TxnPoliciesAccessor) setTxnVersion(
 	txnID TxnID,
 ) PoliciesVersion {
 	txnPoliciesAccessor.mutex.Lock()
+	// Another look-up of the same transaction may have anchored it since the
+	// read-locked check in getTxnPoliciesVersion: keep that anchor (and its
+	// single vacuum entry) instead of overwriting it with a newer version.
+	if anchoredVersion, found := txnPoliciesAccessor.txnVersions[txnID]; found {
+		txnPoliciesAccessor.mutex.Unlock()
+		return anchoredVersion
+	}
 	currentVersion := txnPoliciesAccessor.currentVersion
 	txnPoliciesAccessor.txnVersions[txnID] = currentVersion
 	txnPoliciesAccessor.mutex.Unlock()
